@@ -62,6 +62,7 @@ func NavigableSmallWorld(dst GraphBuilder, dims []int, p, q int, r float64, src 
 				return
 			}
 			vn := nodes[idxFromDelta(u, delta, dims, -p)]
+			un := un // The swaps below must not leak into the next delta.
 			if un.ID() > vn.ID() {
 				un, vn = vn, un
 			}
@@ -105,6 +106,7 @@ func NavigableSmallWorld(dst GraphBuilder, dims []int, p, q int, r float64, src 
 				panic("depleted distribution")
 			}
 			vn := nodes[vidx]
+			un := un // The swap below must not leak into the next link.
 			if !isDirected && un.ID() > vn.ID() {
 				un, vn = vn, un
 			}
